@@ -15,6 +15,7 @@ mod c12;
 mod c19;
 mod c16;
 mod c17;
+mod c20;
 
 fn main() {
     std::panic::set_hook(Box::new(|_| {}));
@@ -63,6 +64,8 @@ fn main() {
         "c16-record" => c16::record(rest),
         "c17-replay" => c17::replay(rest),
         "c17-record" => c17::record(rest),
+        "c20-replay" => c20::replay(rest),
+        "c20-record" => c20::record(rest),
         x => {
             eprintln!("unknown subcommand {}", x);
             std::process::exit(2);
